@@ -120,6 +120,15 @@ class C08(Check):
         if not inputs:
             n0, o0 = next(iter(net.inst))
             inputs.append({'id': 1, 'target': f"{n0}/{o0}/{models.LIB[net.inst[(n0, o0)]['lib']]['in']}", 'shape': '1d', 'op': o0})
+        if stratum == 'S-probe' and rng.random() < 0.35:
+            # one-column-per-node input through get_run_func (its time grid comes from the array length, not from T)
+            opn = rng.choice(opnames)
+            have = [n for n in nodes if (n, opn) in net.inst]
+            if len(have) >= 2:
+                lib = [x['lib'] for (n, o), x in net.inst.items() if o == opn][0]
+                inputs = [{'id': 1, 'target': '/'.join(['all'] * levels) + f"/{opn}/{models.LIB[lib]['in']}", 'shape': 'cols',
+                           'op': opn, 'ncols': len(have)}]
+                vec = True
         cfg = {'dt': dt, 'steps': steps, 'N': N, 'solver': solver, 'solver_kw': kw, 'vectorize': vec,
                'precision': 'float64', 'inputs': inputs, 'mode': 'probe' if stratum == 'S-probe' else 'run',
                'backend': {'S-torch': 'torch', 'S-jax': 'jax'}.get(stratum, 'default'),
